@@ -18,6 +18,7 @@ def frame():
         "a": [1.0, 2.0, 3.5, 4.0, 6.0], "b": [2.0, 1.0, 5.0, 3.0, 0.5], "c": [0.5, 0.25, 4.0, 1.0, 2.0], "y": [1.0, 0.0, 1.0, 1.0, 0.0],
         "A": pandas.Categorical(["u", "v", "u", "w", "v"]), "x y": [3.0, 1.0, 2.0, 5.0, 4.0], "x.1": [1.5, 2.5, 3.5, 4.5, 5.5],
         "x_y": [0.5, 4.0, 1.0, 2.0, 3.0],  # a genuine column that looks like the sanitised alias of `x y`
+        "id": [7.0, 3.0, 9.0, 1.0, 5.0], "max": [2.5, 0.5, 1.5, 4.5, 3.5],  # columns named like Python builtins (data still comes first)
     })
 
 
@@ -52,6 +53,10 @@ def check_formula(formula: str):
         except FactorEvaluationError:
             pass
         except Exception as e:
+            import builtins
+
+            if hasattr(builtins, v):
+                continue  # without the column the name falls through to the Python builtin: the build still fails, with whatever that object causes
             out.append(("wrong-error", f"{formula!r}: removing {v!r} raises {type(e).__name__} instead of FactorEvaluationError"))
     specs = []
     if isinstance(mm, Structured):
@@ -113,8 +118,8 @@ def check_sources():
 
 # ------------------------------------------------------------------------------------------------ generated formulas
 
-_NUM = ["a", "b", "c", "`x y`", "x_y", "`x y`"]
-_COL = {"a": "a", "b": "b", "c": "c", "`x y`": "x y", "x_y": "x_y"}
+_NUM = ["a", "b", "c", "`x y`", "x_y", "`x y`", "id", "max"]
+_COL = {"a": "a", "b": "b", "c": "c", "`x y`": "x y", "x_y": "x_y", "id": "id", "max": "max"}
 
 
 def generated(seed: int, n: int):
